@@ -342,6 +342,18 @@ func c13Quic(s string) (want string, known bool) {
 	return prefix + "quic://" + m[1] + ":784" + m[3], true
 }
 
+// c13DomainPrefix is the "[/domain/.../]" prefix of an upstream line ("" when
+// the line has none): step 10 keeps it byte for byte whatever follows.
+func c13DomainPrefix(s string) string {
+	if !strings.HasPrefix(s, "[/") {
+		return ""
+	}
+	if i := strings.Index(s, "/]"); i >= 0 {
+		return s[:i+2]
+	}
+	return ""
+}
+
 // c13Int reads an integer setting the way the steps do (null is 0, a whole
 // float its value); defined=false for anything else.
 func c13Int(v any, present bool) (z int, has, defined bool) {
@@ -654,6 +666,8 @@ func c13StepValues(n int, old, new yobj, dataDir string) []string {
 					g, _ := gl[i].(string)
 					if g != s && (len(g) != len(s)+4 || !strings.Contains(g, ":784")) {
 						c.fails = append(c.fails, fmt.Sprintf("step 10: dns.%s[%d] is %q, it was %q: more than a port was inserted", k, i, g, s))
+					} else if pre := c13DomainPrefix(s); !strings.HasPrefix(g, pre) {
+						c.fails = append(c.fails, fmt.Sprintf("step 10: dns.%s[%d] is %q, it was %q: the domain prefix %q is not kept", k, i, g, s, pre))
 					}
 					continue
 				}
